@@ -70,6 +70,9 @@ def harnesses(tier):
             scenario_harness("nested-own-window-timeout", Profile(
                 templates=("N12",), window="free", timeout="free", perm="id", crit_job=False, crit_sched="free"),
                 o + [O.c11_clean_exit]),
+            scenario_harness("nested-critical-and-forever", Profile(
+                templates=("N12",), raises="free", crit_job=True, crit_sched="free", forever_sched="free",
+                perm="id", top="pure", edges="none"), o),
             scenario_harness("chains-depth3", Profile(
                 templates=("D3",), raises="free", crit_job="free", crit_sched="free", perm="id", top="sched",
                 top_crit="free", edges="none"), o, required_notes=req),
